@@ -27,8 +27,8 @@ ASSUMPTIONS = ["terminal values are non-negative float32 (the property's precond
 PROBES = ["limit_below_boundary", "limit_above_number_of_coalitions", "restart_then_iterate", "n5", "plus",
           "all_zero_values", "uniform_fallback_at_nonroot"]
 TIERS = {
-    "quick": {"runs": 1500, "wall": 45, "batch": 4, "shrink_s": 40},
-    "thorough": {"runs": 100000, "wall": 900, "batch": 8, "shrink_s": 120},
+    "quick": {"runs": 10000, "wall": 40, "batch": 6, "shrink_s": 40},
+    "thorough": {"runs": 2000000, "wall": 900, "batch": 8, "shrink_s": 120},
 }
 
 
